@@ -93,6 +93,15 @@ def blockArgs : List (Arg V W) → List (List V × List W) → List (Arg V W)
 /-- arithmetic mean of a list of rationals (`mean` over one ensemble axis) -/
 def meanList (l : List Rat) : Rat := l.foldl (· + ·) 0 / (l.length : Rat)
 
+/-- numpy broadcasting of one unpacked argument: a scalar is the same for every member; an array that lives on axis `a`
+(expanded to size 1 on every other axis) reads `values[idx[a]]` at ensemble multi-index `idx` -/
+def broadcastAt (dflt : V) : Unpacked V → List Nat → V
+  | .scalar v, _ => v
+  | .onAxis a _ vs, idx => vs.getD (idx.getD a 0) dflt
+
+/-- the weighted mean a distribution with (intensity) weights `ws` defines for member results `fs` -/
+def weightedMean (ws fs : List Rat) : Rat := (List.zipWith (· * ·) ws fs).sum / ws.sum
+
 /-- composed ensemble transforms (`Probe._calculate_array`): every transform prepends its ensemble axes to those present -/
 def applyAll {α : Type} (base : List α) (ts : List (List α)) : List α := ts.foldl (fun acc t => t ++ acc) base
 
